@@ -60,6 +60,20 @@ theorem setIf_sorted (es : List (Key × Rows)) (hk : KeysDistinct es) (hs : Rows
     · exact hv _ rfl
     · exact hs e h1
 
+def RowsNonEmpty (es : List (Key × Rows)) : Prop := ∀ e ∈ es, e.2 ≠ []
+
+theorem setIf_nonEmpty (es : List (Key × Rows)) (hk : KeysDistinct es) (hne : RowsNonEmpty es) (k : Key)
+    (v : Option Rows) : RowsNonEmpty (setIf es k v) := by
+  unfold setIf
+  split
+  · intro e he; exact hne e ((mem_ddel es k e).mp he).1
+  · intro e he; exact hne e ((mem_ddel es k e).mp he).1
+  · rename_i r hr1 hr2
+    intro e he
+    rcases (mem_dset_iff es hk k _ e).mp he with rfl | ⟨h1, _⟩
+    · intro hnil; exact hr2 (by simpa using hnil)
+    · exact hne e h1
+
 theorem dget_sorted (es : List (Key × Rows)) (hs : RowsSorted es) (k : Key) :
     OSorted ((dget es k).map List.toArray) := by
   cases h : dget es k with
@@ -130,16 +144,17 @@ theorem fold_spec (W : Option (Array Nat) → Option (Array Nat) → Kern.M (Opt
     ∃ es', other.foldlM (fun es (e : Key × Rows) => do
         let r ← liftK (W ((dget es e.1).map List.toArray) (some e.2.toArray))
         pure (setIf es e.1 (r.map Array.toList))) es = .ok es' ∧
-      KeysDistinct es' ∧ RowsSorted es' ∧ ∀ k r, Listed es' k r ↔ listedAfter P other (Listed es) k r := by
+      KeysDistinct es' ∧ RowsSorted es' ∧ (RowsNonEmpty es → RowsNonEmpty es') ∧
+      ∀ k r, Listed es' k r ↔ listedAfter P other (Listed es) k r := by
   induction other generalizing es with
-  | nil => exact ⟨es, rfl, hk, hs, fun k r => Iff.rfl⟩
+  | nil => exact ⟨es, rfl, hk, hs, id, fun k r => Iff.rfl⟩
   | cons e rest ih =>
     obtain ⟨k0, rows⟩ := e
     obtain ⟨res, hrun, hsr, hmem⟩ := hW ((dget es k0).map List.toArray) rows (dget_sorted es hs k0)
       (ho _ List.mem_cons_self)
     obtain ⟨h1, h2, h3⟩ := step_spec es hk hs k0 rows res hsr P hmem
-    obtain ⟨es', hrun', hk', hs', hl'⟩ := ih _ h1 h2 (fun e he => ho e (List.mem_cons_of_mem _ he))
-    refine ⟨es', ?_, hk', hs', fun k r => ?_⟩
+    obtain ⟨es', hrun', hk', hs', hne', hl'⟩ := ih _ h1 h2 (fun e he => ho e (List.mem_cons_of_mem _ he))
+    refine ⟨es', ?_, hk', hs', fun hne => hne' (setIf_nonEmpty es hk hne _ _), fun k r => ?_⟩
     · simp only [List.foldlM_cons, bind, Except.bind, hrun, liftK, pure, Except.pure]
       exact hrun'
     · rw [hl' k r]
@@ -250,14 +265,14 @@ theorem osorted_toArray (rows : Rows) (h : SSorted rows) : OSorted (some rows.to
 theorem unionUpdate_spec (i : IIndex) (other : List (Key × Rows)) (hk : KeysDistinct i.entries)
     (hs : RowsSorted i.entries) (ho : RowsSorted other) :
     ∃ res, unionUpdate i other = .ok res ∧ res.common = i.common ∧ res.shape = i.shape ∧
-      KeysDistinct res.entries ∧ RowsSorted res.entries ∧
+      KeysDistinct res.entries ∧ RowsSorted res.entries ∧ (RowsNonEmpty i.entries → RowsNonEmpty res.entries) ∧
       ∀ k r, Listed res.entries k r ↔ Listed i.entries k r ∨ Listed other k r := by
-  obtain ⟨es', hrun, hk', hs', hl⟩ := fold_spec Kern.unionW (· ∨ ·)
+  obtain ⟨es', hrun, hk', hs', hne', hl⟩ := fold_spec Kern.unionW (· ∨ ·)
     (fun l rows hl hr => by
       obtain ⟨res, h1, h2, h3, _⟩ := union_wrapper l (some rows.toArray) hl (osorted_toArray rows hr)
       exact ⟨res, h1, h2, fun x => by rw [h3 x, omem_toArray]⟩)
     other i.entries hk hs ho
-  refine ⟨{ i with entries := es' }, ?_, rfl, rfl, hk', hs', fun k r => ?_⟩
+  refine ⟨{ i with entries := es' }, ?_, rfl, rfl, hk', hs', hne', fun k r => ?_⟩
   · unfold unionUpdate
     simp only [bind, Except.bind, pure, Except.pure] at hrun ⊢
     rw [hrun]
@@ -267,14 +282,14 @@ theorem unionUpdate_spec (i : IIndex) (other : List (Key × Rows)) (hk : KeysDis
 theorem differenceUpdate_spec (i : IIndex) (other : List (Key × Rows)) (hk : KeysDistinct i.entries)
     (hs : RowsSorted i.entries) (ho : RowsSorted other) :
     ∃ res, differenceUpdate i other = .ok res ∧ res.common = i.common ∧ res.shape = i.shape ∧
-      KeysDistinct res.entries ∧ RowsSorted res.entries ∧
+      KeysDistinct res.entries ∧ RowsSorted res.entries ∧ (RowsNonEmpty i.entries → RowsNonEmpty res.entries) ∧
       ∀ k r, Listed res.entries k r ↔ Listed i.entries k r ∧ ¬ Listed other k r := by
-  obtain ⟨es', hrun, hk', hs', hl⟩ := fold_spec Kern.differenceW (fun a b => a ∧ ¬ b)
+  obtain ⟨es', hrun, hk', hs', hne', hl⟩ := fold_spec Kern.differenceW (fun a b => a ∧ ¬ b)
     (fun l rows hl hr => by
       obtain ⟨res, h1, h2, h3, _⟩ := difference_wrapper l (some rows.toArray) hl (osorted_toArray rows hr)
       exact ⟨res, h1, h2, fun x => by rw [h3 x, omem_toArray]⟩)
     other i.entries hk hs ho
-  refine ⟨{ i with entries := es' }, ?_, rfl, rfl, hk', hs', fun k r => ?_⟩
+  refine ⟨{ i with entries := es' }, ?_, rfl, rfl, hk', hs', hne', fun k r => ?_⟩
   · unfold differenceUpdate
     simp only [bind, Except.bind, pure, Except.pure] at hrun ⊢
     rw [hrun]
@@ -285,16 +300,16 @@ others keep the rows listed on both sides -/
 theorem intersectionUpdate_spec (i : IIndex) (other : List (Key × Rows)) (hk : KeysDistinct i.entries)
     (hs : RowsSorted i.entries) (ho : RowsSorted other) (hd : KeysDistinct other) :
     ∃ res, intersectionUpdate i other = .ok res ∧ res.common = i.common ∧ res.shape = i.shape ∧
-      KeysDistinct res.entries ∧ RowsSorted res.entries ∧
+      KeysDistinct res.entries ∧ RowsSorted res.entries ∧ (RowsNonEmpty i.entries → RowsNonEmpty res.entries) ∧
       ∀ k r, Listed res.entries k r ↔ Listed i.entries k r ∧ Listed other k r := by
   have hk0 : KeysDistinct (i.entries.filter (fun e => dhas other e.1)) := hk.sublist List.filter_sublist
   have hs0 : RowsSorted (i.entries.filter (fun e => dhas other e.1)) := fun e he => hs e (List.mem_filter.mp he).1
-  obtain ⟨es', hrun, hk', hs', hl⟩ := fold_spec Kern.intersectionW (· ∧ ·)
+  obtain ⟨es', hrun, hk', hs', hne', hl⟩ := fold_spec Kern.intersectionW (· ∧ ·)
     (fun l rows hl hr => by
       obtain ⟨res, h1, h2, h3, _⟩ := intersection_wrapper l (some rows.toArray) hl (osorted_toArray rows hr)
       exact ⟨res, h1, h2, fun x => by rw [h3 x, omem_toArray]⟩)
     other _ hk0 hs0 ho
-  refine ⟨{ i with entries := es' }, ?_, rfl, rfl, hk', hs', fun k r => ?_⟩
+  refine ⟨{ i with entries := es' }, ?_, rfl, rfl, hk', hs', (fun hne => hne' (fun e he => hne e (List.mem_filter.mp he).1)), fun k r => ?_⟩
   · unfold intersectionUpdate
     simp only [bind, Except.bind, pure, Except.pure] at hrun ⊢
     rw [hrun]
